@@ -206,7 +206,9 @@ class IL:
     def __ge__(self, o):
         return self._cmp(o, lambda a, b: a >= b, lambda a, b: a >= b)
 
-    __hash__ = object.__hash__
+    def __hash__(self):
+        # structural: the same symbolic expression hashes (and compares) equal wherever it is met, e.g. as a dict key
+        return hash((type(self).__name__, self.e if isinstance(self.e, (int, bool)) else self.e.hash()))
 
     def __int__(self):
         if isinstance(self.e, int):
@@ -272,7 +274,9 @@ class BL:
         r = self._cmp(o, True)
         return True if r is NotImplemented else r
 
-    __hash__ = object.__hash__
+    def __hash__(self):
+        # structural: the same symbolic expression hashes (and compares) equal wherever it is met, e.g. as a dict key
+        return hash((type(self).__name__, self.e if isinstance(self.e, (int, bool)) else self.e.hash()))
 
     def __deepcopy__(self, memo):
         return self
@@ -472,6 +476,18 @@ class SymNd(realnp.ndarray):
         c = realnp.ndarray.copy(self)
         c.dt = self.dt
         return c
+
+    def tobytes(self, *a, **k):
+        """canonical: equal symbolic contents give equal bytes (the real method would expose object addresses)"""
+        parts = [self.dt]
+        for e in self.flat:
+            if isinstance(e, SR):
+                parts.append(repr(e.v.key()))
+            elif isinstance(e, (IL, BL)):
+                parts.append(str(e.e))
+            else:
+                parts.append(repr(e))
+        return "|".join(parts).encode()
 
 
 def _retag_deep(e, py):
@@ -1109,13 +1125,21 @@ class ReplayServer:
                     if len(hdr) < 4:
                         break
                     func, point, kw = pickle.loads(fin.read(struct.unpack("<I", hdr)[0]))
-                    try:
-                        res = ("ok", getattr(mod, func)(point, **kw))
-                    except Exception:
-                        res = ("err", traceback.format_exc()[-600:])
-                    blob = pickle.dumps(res)
-                    fout.write(struct.pack("<I", len(blob)) + blob)
-                    fout.flush()
+                    # every request runs in its own fork of the pristine server: module-level state that the code
+                    # under test may keep between calls never leaks from one replay into the next
+                    pid2 = os.fork()
+                    if pid2 == 0:
+                        try:
+                            try:
+                                res = ("ok", getattr(mod, func)(point, **kw))
+                            except Exception:
+                                res = ("err", traceback.format_exc()[-600:])
+                            blob = pickle.dumps(res)
+                            fout.write(struct.pack("<I", len(blob)) + blob)
+                            fout.flush()
+                        finally:
+                            os._exit(0)
+                    os.waitpid(pid2, 0)
             except BaseException:
                 traceback.print_exc()
             finally:
@@ -1270,3 +1294,28 @@ class AtDefaultPoint:
         if isinstance(leaf, SR):
             return float(S.NumEnv(self.frac).value(leaf))
         return leaf
+
+
+# ---------------------------------------------------------------------------
+# module-level state: every explored path (and every replay) starts from the import-time state of the modules
+# ---------------------------------------------------------------------------
+def snapshot_state(*modules):
+    import copy
+
+    snap = []
+    for m in modules:
+        for name, val in list(vars(m).items()):
+            if name.startswith("__"):
+                continue
+            if type(val) in (dict, list, set):
+                snap.append((val, copy.copy(val)))
+    return snap
+
+
+def restore_state(snap):
+    for live, saved in snap:
+        if isinstance(live, list):
+            live[:] = saved
+        else:
+            live.clear()
+            live.update(saved)
